@@ -1,6 +1,6 @@
 /-
   C20 — executable model of `gql-client-gen` (cmd/gql-client-gen/main.go:35-305 + Generate, *after*
-  the fixes repo-patches/C20/01..05) and of `encoding/json` decoding into the generated types.
+  the fixes repo-patches/C20/01..08) and of `encoding/json` decoding into the generated types.
 
   What is modelled, line by line:
     * `fieldName`                      main.go:35-41
@@ -20,6 +20,8 @@
   Names are lists of code points (`List Nat`) so that the ASCII case rules are arithmetic.
   Core Lean only: this file is linked into the driver `c20model`.
 -/
+import ApiFu.C20.Reserved
+
 namespace ApiFu.C20
 
 abbrev Name := List Nat
@@ -72,6 +74,10 @@ def nameLt : Name → Name → Bool
   | [], _ :: _ => true
   | _ :: _, [] => false
   | a :: as, b :: bs => if a < b then true else if b < a then false else nameLt as bs
+
+/-- `goTypeName` (fix 08): the Go identifier of an enum type — its name, with `_` appended when it is
+    a Go keyword, a predeclared identifier or `json`. -/
+def goTypeName (n : Name) : Name := if goReserved.contains n then n ++ [95] else n
 
 def insertName (n : Name) : List Name → List Name
   | [] => [n]
@@ -334,8 +340,8 @@ def genAt (S : Schema) (n : Name) (nonNull : Bool) (tnField : Option Name) (st :
   | some (.scalar nm) => .ok (ptrUnless nonNull (scalarTy nm), st)
   | some (.enum nm vs) =>
     let st' := if st.enums.contains nm then st
-      else { st with decls := st.decls ++ [.enum nm (enumConsts nm vs)], enums := nm :: st.enums }
-    .ok (ptrUnless nonNull (.named nm), st')
+      else { st with decls := st.decls ++ [.enum (goTypeName nm) (enumConsts (goTypeName nm) vs)], enums := nm :: st.enums }
+    .ok (ptrUnless nonNull (.named (goTypeName nm)), st')
   | some (.object a b c) => composite (.object a b c)
   | some (.iface a b) => composite (.iface a b)
   | some (.union a b) => composite (.union a b)
@@ -351,13 +357,73 @@ def fieldTypeOf (td : TypeDef) (name : Name) : Option TypeRef :=
   | .iface _ fs => (fs.find? (fun p => p.1 == name)).map (·.2)
   | _ => none
 
+/-! #### Names of the fragment holders (fix 06)
+
+  The struct member that holds a fragment is named after the fragment / its type condition; when that
+  Go name is taken by a field of the selection set or by another holder, underscores are appended
+  until it is free. The Go code decides lazily inside the loop (`holderKey`, memoised per kind and
+  name); the model computes the same table in a pre-pass over the selection set. -/
+
+/-- (is a spread, fragment or type-condition name, key in the `fields` map). -/
+abbrev HolderTable := List (Bool × Name × Name)
+
+def HolderTable.find (tbl : HolderTable) (spread : Bool) (n : Name) : Option Name :=
+  match tbl.find? (fun e => e.1 == spread && e.2.1 == n) with
+  | some e => some e.2.2
+  | none => none
+
+/-- The Go names taken by the fields of a selection set. -/
+def takenOf : List Sel → List Name
+  | [] => []
+  | .field alias name _ :: rest => fieldName (alias.getD name) :: takenOf rest
+  | _ :: rest => takenOf rest
+
+def maxLen : List Name → Nat
+  | [] => 0
+  | n :: ns => max n.length (maxLen ns)
+
+/-- `for { if !taken[fieldName(k)] { break }; k += "_" }`. The Go loop is unbounded; it stops at the
+    latest when the candidate is longer than every taken name, so `maxLen taken + 1` rounds suffice. -/
+def pickFree (taken : List Name) : Nat → Name → Name
+  | 0, k => k
+  | fuel + 1, k => if taken.contains (fieldName k) then pickFree taken fuel (k ++ [95]) else k
+
+def holderTableAux (tdName : Name) : List Sel → List Name → HolderTable → HolderTable
+  | [], _, tbl => tbl
+  | .field _ _ _ :: rest, taken, tbl => holderTableAux tdName rest taken tbl
+  | .inline cond _ :: rest, taken, tbl =>
+    let n := cond.getD tdName
+    match tbl.find false n with
+    | some _ => holderTableAux tdName rest taken tbl
+    | none =>
+      let k := pickFree taken (maxLen taken + 1) n
+      holderTableAux tdName rest (fieldName k :: taken) (tbl ++ [(false, n, k)])
+  | .spread f :: rest, taken, tbl =>
+    match tbl.find true f with
+    | some _ => holderTableAux tdName rest taken tbl
+    | none =>
+      let k := pickFree taken (maxLen taken + 1) f
+      holderTableAux tdName rest (fieldName k :: taken) (tbl ++ [(true, f, k)])
+
+/-- The holder names of one selection set on a type named `tdName`. -/
+def holderTable (tdName : Name) (sels : List Sel) : HolderTable :=
+  holderTableAux tdName sels (takenOf sels) []
+
+/-- The key of the generator's `fields` map a selection writes to. -/
+def memberKey (tbl : HolderTable) (td : TypeDef) : Sel → Name
+  | .field alias name _ => alias.getD name
+  | .inline cond _ => (tbl.find false (cond.getD td.name)).getD (cond.getD td.name)
+  | .spread f => (tbl.find true f).getD f
+
 mutual
 /-- One iteration of the loop main.go:111-159. -/
-def genSel (S : Schema) (ft : List (Name × Name)) (td : TypeDef) (hasTn : Bool) :
+def genSel (S : Schema) (ft : List (Name × Name)) (td : TypeDef) (tbl : HolderTable) (hasTn : Bool) :
     Sel → Fields → Conds → St → Except Err (Fields × Conds × St)
   | .spread name, fields, conds, st =>
     if !hasTn && !td.isObject then .error .typenameSpread
-    else .ok (fields.set ⟨name, .ptr (.named (name ++ n_Fragment)), true⟩, conds.add (lookupFrag ft name) name, st)
+    else
+      let key := memberKey tbl td (.spread name)
+      .ok (fields.set ⟨key, .ptr (.named (name ++ n_Fragment)), true⟩, conds.add (lookupFrag ft name) key, st)
   | .inline cond subs, fields, conds, st =>
     if !hasTn && !td.isObject then .error .typenameInline
     else
@@ -367,9 +433,11 @@ def genSel (S : Schema) (ft : List (Name × Name)) (td : TypeDef) (hasTn : Bool)
       | none => .error .panic            -- `cond.TypeName()` on a nil interface
       | some _ =>
         match genAt S c false (typenameFieldOf subs) st
-            (fun td' st' => genSels S ft td' (typenameFieldOf subs).isSome subs [] [] st') with
+            (fun td' st' => genSels S ft td' (holderTable td'.name subs) (typenameFieldOf subs).isSome subs [] [] st') with
         | .error e => .error e
-        | .ok (gen, st2) => .ok (fields.set ⟨c, gen, true⟩, conds.add c c, st2)
+        | .ok (gen, st2) =>
+          let key := memberKey tbl td (.inline cond subs)
+          .ok (fields.set ⟨key, gen, true⟩, conds.add c key, st2)
   | .field alias name subs, fields, conds, st =>
     let k := alias.getD name
     if name == n_typename then .ok (fields.set ⟨k, .string, false⟩, conds, st)
@@ -382,17 +450,17 @@ def genSel (S : Schema) (ft : List (Name × Name)) (td : TypeDef) (hasTn : Bool)
         | some ftype =>
           let sh := shape ftype false
           match genAt S sh.2.1 sh.2.2 (typenameFieldOf subs) st
-              (fun td' st' => genSels S ft td' (typenameFieldOf subs).isSome subs [] [] st') with
+              (fun td' st' => genSels S ft td' (holderTable td'.name subs) (typenameFieldOf subs).isSome subs [] [] st') with
           | .error e => .error e
           | .ok (gen, st2) => .ok (fields.set ⟨k, wrapSlices sh.1 gen, false⟩, conds, st2)
 /-- The loop main.go:111-159. -/
-def genSels (S : Schema) (ft : List (Name × Name)) (td : TypeDef) (hasTn : Bool) :
+def genSels (S : Schema) (ft : List (Name × Name)) (td : TypeDef) (tbl : HolderTable) (hasTn : Bool) :
     List Sel → Fields → Conds → St → Except Err (Fields × Conds × St)
   | [], fields, conds, st => .ok (fields, conds, st)
   | sel :: rest, fields, conds, st =>
-    match genSel S ft td hasTn sel fields conds st with
+    match genSel S ft td tbl hasTn sel fields conds st with
     | .error e => .error e
-    | .ok (fields', conds', st') => genSels S ft td hasTn rest fields' conds' st'
+    | .ok (fields', conds', st') => genSels S ft td tbl hasTn rest fields' conds' st'
 end
 
 /-- `generateType(t, selections, nonNull, fragTypes)` for a named `t` (operation roots, fragment
@@ -400,7 +468,7 @@ end
 def genNamed (S : Schema) (ft : List (Name × Name)) (n : Name) (sels : List Sel) (nonNull : Bool) (st : St) :
     Except Err (GoTy × St) :=
   genAt S n nonNull (typenameFieldOf sels) st
-    (fun td st' => genSels S ft td (typenameFieldOf sels).isSome sels [] [] st')
+    (fun td st' => genSels S ft td (holderTable td.name sels) (typenameFieldOf sels).isSome sels [] [] st')
 
 /-- main.go:244: `!strings.ContainsAny(original, "* \n")`. -/
 def isBareIdent : GoTy → Bool
@@ -450,6 +518,76 @@ def processDocs (S : Schema) : List Doc → St → List Err × St
     let r' := processDocs S ds r.2
     (r.1 ++ r'.1, r'.2)
 
+/-! #### Merging inline fragments with the same type condition (fix 07)
+
+  `generateType` first merges the inline fragments of the selection set it is given that have the
+  same type condition (an untyped one is on the enclosing type) into the first of them. The model
+  does this as a normalisation of the document before generation, top-down: a level is merged, then
+  the sub-selections of its members. `fuel` bounds the nesting depth (`selsDepth` suffices). -/
+
+/-- Append `more` to the selections of the first inline fragment whose type condition is `c`. -/
+def absorb (tdName c : Name) (more : List Sel) : List Sel → List Sel
+  | [] => []
+  | .inline c' ss :: rest =>
+    if c'.getD tdName == c then .inline c' (ss ++ more) :: rest
+    else .inline c' ss :: absorb tdName c more rest
+  | s :: rest => s :: absorb tdName c more rest
+
+def hasInline (tdName c : Name) : List Sel → Bool
+  | [] => false
+  | .inline c' _ :: rest => c'.getD tdName == c || hasInline tdName c rest
+  | _ :: rest => hasInline tdName c rest
+
+/-- `mergeInlineFragments`: `acc` is the merged prefix. -/
+def mergeInlineAux (tdName : Name) : List Sel → List Sel → List Sel
+  | [], acc => acc
+  | .inline c ss :: rest, acc =>
+    if hasInline tdName (c.getD tdName) acc then mergeInlineAux tdName rest (absorb tdName (c.getD tdName) ss acc)
+    else mergeInlineAux tdName rest (acc ++ [.inline c ss])
+  | s :: rest, acc => mergeInlineAux tdName rest (acc ++ [s])
+
+def mergeInline (tdName : Name) (sels : List Sel) : List Sel := mergeInlineAux tdName sels []
+
+mutual
+def selDepth : Sel → Nat
+  | .field _ _ ss => selsDepth ss + 1
+  | .inline _ ss => selsDepth ss + 1
+  | .spread _ => 1
+def selsDepth : List Sel → Nat
+  | [] => 0
+  | s :: rest => max (selDepth s) (selsDepth rest)
+end
+
+/-- The document as `generateType` sees it, level by level. -/
+def normalize (S : Schema) : Nat → TypeDef → List Sel → List Sel
+  | 0, _, sels => sels
+  | fuel + 1, td, sels =>
+    (mergeInline td.name sels).map fun
+      | .field a n ss =>
+        (match fieldTypeOf td n with
+         | some ft =>
+           (match S.lookup (shape ft false).2.1 with
+            | some td' => .field a n (normalize S fuel td' ss)
+            | none => .field a n ss)
+         | none => .field a n ss)
+      | .inline c ss =>
+        (match S.lookup (c.getD td.name) with
+         | some ctd => .inline c (normalize S fuel ctd ss)
+         | none => .inline c ss)
+      | .spread f => .spread f
+
+def normalizeDef (S : Schema) : Def → Def
+  | .op kind name sels =>
+    (match (rootOf S kind).bind S.lookup with
+     | some td => .op kind name (normalize S (selsDepth sels + 1) td sels)
+     | none => .op kind name sels)
+  | .frag name cond sels =>
+    (match S.lookup cond with
+     | some td => .frag name cond (normalize S (selsDepth sels + 1) td sels)
+     | none => .frag name cond sels)
+
+def normalizeDoc (S : Schema) (d : Doc) : Doc := { d with defs := d.defs.map (normalizeDef S) }
+
 structure Output where
   importsJSON : Bool
   decls : List Decl
@@ -459,11 +597,16 @@ def Decl.isSel : Decl → Bool
   | .sel _ _ _ => true
   | _ => false
 
-/-- `Generate` (main.go:345-386): any error ⇒ the errors and *no* output. -/
-def generate (S : Schema) (docs : List Doc) : Except (List Err) Output :=
+/-- `Generate` (main.go:345-386) on documents whose selection sets are already merged: any error ⇒ the
+    errors and *no* output. -/
+def generateMerged (S : Schema) (docs : List Doc) : Except (List Err) Output :=
   let r := processDocs S docs {}
   if r.1.isEmpty then .ok { importsJSON := r.2.decls.any Decl.isSel, decls := r.2.decls }
   else .error r.1
+
+/-- `Generate`: merging (fix 07), then generation. -/
+def generate (S : Schema) (docs : List Doc) : Except (List Err) Output :=
+  generateMerged S (docs.map (normalizeDoc S))
 
 end ApiFu.C20
 
